@@ -152,6 +152,47 @@ theorem starTail_step {F : Nat} {atom : Atom} {a : PExpr R} {st st1 st2 st3 : St
   have : (st2.pos == st.pos) = false := by simpa using hp
   simp [eval, h1.1, h2.1, h3.1, this]
 
+/-- where implicit whitespace is off, `e+` is `(e)*` that made progress -/
+theorem repOnce_of_starTail {F : Nat} {atom : Atom} {a : PExpr R} {st st' : St} {toks : List (Tok R)}
+    (hat : atom ≠ .nonAtomic) (h : Ev G ws (F + 1) atom (.starTail a) st (.ok st' toks)) (hp : st'.pos ≠ st.pos) :
+    Ev G ws (F + 1) atom (.repOnce a) st (.ok st' toks) := by
+  refine ⟨?_, by simp⟩
+  have h1 := h.1
+  have hskip : ∀ f, eval G ws (f + 1) atom .skip st = .ok st [] := by
+    intro f; cases ws <;> cases atom <;> simp_all [eval]
+  cases F with
+  | zero => simp [eval] at h1
+  | succ f =>
+    rw [eval] at h1
+    rw [eval]
+    rw [hskip f] at h1
+    simp only [] at h1
+    cases ha : eval G ws (f + 1) atom a st with
+    | ok st2 t2 =>
+      rw [ha] at h1
+      simp only [] at h1
+      by_cases hpp : (st2.pos == st.pos) = true
+      · simp only [hpp, ↓reduceIte] at h1
+        simp at h1
+        obtain ⟨rfl, rfl⟩ := h1
+        simp at hpp
+        exact absurd hpp hp
+      · simp only [hpp] at h1
+        cases hs : eval G ws (f + 1) atom (.starTail a) st2 with
+        | ok st3 t3 =>
+          rw [hs] at h1
+          simp at h1
+          obtain ⟨rfl, rfl⟩ := h1
+          simp [hs]
+        | fail => rw [hs] at h1; simp at h1
+        | fuel => rw [hs] at h1; simp at h1
+    | fail =>
+      rw [ha] at h1
+      simp at h1
+      obtain ⟨rfl, rfl⟩ := h1
+      exact absurd rfl hp
+    | fuel => rw [ha] at h1; simp at h1
+
 end Ev
 
 end Hbs.Pest
